@@ -256,6 +256,13 @@ def run(ctx):
                                 p_unsupported=0.0, alias_sig=0.0)
         data = gm.random_inputs(mb, rng_, n=1)
         cmds = pl.gen_recipe(rng_, mb, kind="mixed")
+        m_ = pl.read(mb)
+        seconds = [pl.tname(sg.tensors[op.outputs[1]]) for sg in m_.subgraphs for op in sg.operators if len(op.outputs) > 1]
+        if seconds and rng_.random() < 0.7:
+            # a rule that reaches a multi-result operator ONLY through the name of its second result
+            import re as _re
+            cmds = [c for c in cmds if c["regex"] != ".*"] + [{"k": "add", "regex": _re.escape(rng_.choice(seconds)) + ";", "operation": "*",
+                                                             "cfg": pl.UNIFORM[rng_.choice(["a8w8", "a16w8", "wo8"])], "alg": "min_max_uniform_quantize"}]
         return fp.Case(mb, info, cmds=cmds, data=data, desc=[(c["regex"], c["operation"], c["alg"]) for c in cmds])
 
     def per_case(case, res):
